@@ -107,6 +107,10 @@ async fn run_net(sc: &Value) -> (Vec<Value>, f64, Option<String>) {
         ca.identify = true;
         cb.identify = true;
     }
+    // tcp or ws (both run through the byte proxy that observes which side ended the stream)
+    let transport = sc["transport"].as_str().unwrap_or("tcp").to_string();
+    ca.transport = transport.clone();
+    cb.transport = transport.clone();
     let a = Node::start(&ca, log.clone());
     let b = Node::start(&cb, log.clone());
     let ab = Proxy::start("ab", b.listen, log.clone()).await;
@@ -118,7 +122,7 @@ async fn run_net(sc: &Value) -> (Vec<Value>, f64, Option<String>) {
     'run: {
         // ---- establish
         let t0 = before(&log);
-        let (addr_ab, addr_ba) = (Node::addr_via(net.ab.listen, net.b.peer), Node::addr_via(net.ba.listen, net.a.peer));
+        let (addr_ab, addr_ba) = (Node::addr_via(&transport, net.ab.listen, net.b.peer), Node::addr_via(&transport, net.ba.listen, net.a.peer));
         if double {
             let (r1, r2) = tokio::join!(net.a.dial_address(addr_ab), net.b.dial_address(addr_ba));
             if r1.is_err() || r2.is_err() {
@@ -251,7 +255,7 @@ fn main() {
         }
         judged += 1;
         let t_ms = sc["T"].as_u64().unwrap_or(400);
-        lines.push(json!({"e": "reset", "sc": sc["name"], "seed": sc["seed"], "T": t_ms, "slack": t_ms.max(1000), "strict": strict, "overshoot_ms": over.ceil() as u64}).to_string());
+        lines.push(json!({"e": "reset", "sc": sc["name"], "transport": sc["transport"].as_str().unwrap_or("tcp"), "seed": sc["seed"], "T": t_ms, "slack": t_ms.max(1000), "strict": strict, "overshoot_ms": over.ceil() as u64}).to_string());
         for v in ls {
             events += 1;
             let mut v = v;
